@@ -370,6 +370,16 @@ impl<RW: QueueRW<T>, T> MultiQueue<RW, T> {
                     if self.writers.load(Relaxed) == 0 {
                         fence(Acquire);
                         if rm_tag(read_cell.wraps.load(Acquire)) != wrap_valid_tag {
+                            // On a shared stream another consumer may have moved the
+                            // cursor since it was loaded: the mismatch then says nothing
+                            // about the current position, look again from there
+                            if !is_single {
+                                let reloaded = ctail_attempt.reload();
+                                if reloaded.get().1 != wrap_valid_tag {
+                                    ctail_attempt = reloaded;
+                                    continue;
+                                }
+                            }
                             return Err((ptr::null(), TryRecvError::Disconnected));
                         }
                     }
